@@ -180,7 +180,7 @@ package nbhttp
 //@   ensures res != nil ==> res.buffer == nil && res.bodyBuffer == nil
 //@   ensures old(res != nil && res.buffer != nil) ==> !liveP[old(res.buffer)]
 //@   ensures old(res != nil && res.bodyBuffer != nil) ==> !liveP[old(res.bodyBuffer)]
-//@   ensures gOut == old(gOut) && gCloses == old(gCloses) && (forall q int :: q != old(res.buffer) && q != old(res.bodyBuffer) ==> liveP[q] == old(liveP[q]))
+//@   ensures gOut == old(gOut) && gCloses == old(gCloses) && gServed == old(gServed) && gExec == old(gExec) && (forall q int :: q != old(res.buffer) && q != old(res.bodyBuffer) ==> liveP[q] == old(liveP[q]))
 //@   assigns everything
 
 //@ func releaseRequest
@@ -199,6 +199,7 @@ package nbhttp
 //@   ensures closes: gCloses - old(gCloses) <= 1                                                                      // prop C10
 //@   ensures closed: old(parser.Conn) != nil && !old(res.hijacked) && old(res.request.Close) ==> gCloses == old(gCloses) + 1   // prop C10
 //@   ensures hijack: old(res.hijacked) ==> gOut == old(gOut) && gCloses == old(gCloses)                               // prop C10
+//@   ensures counts: gServed == old(gServed) && gExec == old(gExec)                                                   // prop C10
 //@   assigns everything
 
 // ---- ReadFrom: head first, then the reader's bytes (sendfile when the connection offers it)
@@ -454,3 +455,70 @@ package nbhttp
 //@   assigns everything
 //@   loop 1
 //@     invariant BodyInv(br) && br.index >= 0 && 0 <= ncopy && ncopy <= need && need == len(p) && !br.closed
+
+// =====================================================================================================================
+// one request, one answer (processor.go) - C10
+// =====================================================================================================================
+// gExec: closures handed to the connection's executor by the code under contract; gServed: handler invocations
+//@ ghost gExec : Int
+//@ ghost gServed : Int
+//@ fieldfunc nbhttp.Parser.Execute
+//@   params f
+//@   note the connection's job queue (nbio Conn.Execute: C05 - accepted jobs run exactly once, in order, never overlapping) or the synchronous executor; the closure runs later or inline, its effects are not this call's
+//@   ensures gExec == old(gExec) + 1 && gServed == old(gServed)
+//@   assigns gExec, allocates
+//@ fieldfunc nbhttp.Config.OnRequest
+//@   note user hook called before the handler: reaches the response through its public methods only
+//@   ensures gExec == old(gExec) && gServed == old(gServed) && (forall e *Engine :: e.Handler == old(e.Handler)) && (forall q *Parser :: q.Engine == old(q.Engine) && q.Execute == old(q.Execute)) && (forall sp *ServerProcessor :: sp.request == old(sp.request))
+//@   assigns everything
+//@ package net/http
+//@ iface net/http.Handler.ServeHTTP
+//@   note the user's handler: reaches the response through its public methods, each of which keeps the response's buffers owned (C11 contracts above)
+//@   ensures gServed == old(gServed) + 1 && gExec == old(gExec) && (forall q *nbhttp.Parser :: q.Engine == old(q.Engine))
+//@   assigns everything
+//@ package net
+//@ iface net.Conn.RemoteAddr
+//@   ensures result != nil
+//@   assigns allocates
+//@ iface net.Addr.String
+//@   assigns allocates
+//@ iface net.Conn.SetWriteDeadline
+//@   assigns allocates
+//@ package nbhttp
+//@ func NewBodyReader
+//@   trusted
+//@   note takes a BodyReader from its object pool and resets it
+//@   ensures result != nil
+//@   assigns allocates
+//@ func NewResponse
+//@   props C10 C11
+//@   safety index slice
+//@   note the response pool's New returns a *Response: the type assertion and the non-nil result are not re-proved here
+//@   ensures result != nil && result.Parser == parser && result.request == request
+//@   assigns Response.Parser, Response.request, Response.header, allocates
+
+// ---- OnComplete: a completed request is handed to the executor exactly once; the job calls the handler once and then
+// flushes once; a refused job releases the request and writes nothing
+//@ func (*ServerProcessor).OnComplete$1
+//@   props C10
+//@   safety nil
+//@   requires engine != nil && engine.Handler != nil && parser != nil && parser.Engine != nil && response != nil && request != nil
+//@   ensures served: gServed == old(gServed) + 1   // prop C10
+//@   assigns everything
+//@   at before:flushResponse#1 assert after: gServed == old(gServed) + 1 && arg_res == response && arg_parser == parser   // prop C10
+//@   at before:flushResponse#1 assume handler: response.request != nil && response.Parser != nil && ResOwn(response) && (!response.headEncoded ==> response.buffer == nil)
+//@ func (*ServerProcessor).OnComplete
+//@   props C10
+//@   safety nil
+//@   requires p != nil && parser != nil && parser.Engine != nil && parser.Conn != nil && parser.Execute != nil && parser.Engine.Handler != nil && (p.request != nil ==> p.request.URL != nil)
+//@   ensures once: gExec == old(gExec) + ite(old(p.request) != nil, 1, 0)   // prop C10
+//@   ensures taken: p.request == nil   // prop C10
+//@   ensures inline: gServed == old(gServed)
+//@   note persistence (C10): without a Connection header HTTP/1.0 closes and HTTP/1.1 keeps the connection; HTTP/0.x always closes
+//@   at before:NewResponse#1 assert persist0: request.ProtoMajor < 1 ==> request.Close   // prop C10
+//@   at before:NewResponse#1 assert persist10: request.ProtoMajor == 1 && request.ProtoMinor == 0 && len(request.Header["Connection"]) == 0 ==> request.Close   // prop C10
+//@   at before:NewResponse#1 assert persist11: request.ProtoMajor >= 1 && !(request.ProtoMajor == 1 && request.ProtoMinor == 0) && len(request.Header["Connection"]) == 0 ==> !request.Close   // prop C10
+//@   assigns everything
+//@   loop 1
+//@     invariant ((hasClose || keepAlive) ==> len(request.Header["Connection"]) > 0) && request.ProtoMajor >= 1
+//@     invariant rangeindex >= -1 && gExec == old(gExec) && gServed == old(gServed) && request != nil && request == old(p.request) && p.request == nil && parser.Engine == engine && engine != nil && engine.Handler != nil && parser.Execute != nil && conn != nil
